@@ -81,6 +81,9 @@ def c19(tier, seed):
     out.append(_c('asan-async-mb', 'mb', 'asan', ['--asyncs=%d' % (50000 * s)] + pl_small + ls, cpus=4, timeout=to))
     out.append(_c('asan-step-bp', 'bp', 'asan', ['--traps=%d' % (30000 * s), '--episodes=%d' % (60 * s), '--force-step=1'] + pl + ls,
                   cpus=5, timeout=to))
+    # futex() unavailable (ENOSYS for every call): the compat wake-up paths run inside and under asynchronous handlers
+    out.append(_c('async-memb-enosys', 'memb', 'plain', ['--step=0', '--asyncs=%d' % (120000 * s), '--f-enosys=1'] + pl + ls, cpus=5,
+                  timeout=to))
     # No tsan case: see the assumptions (ThreadSanitizer defers asynchronous signals to its own delivery points,
     # cannot be single-stepped, and its runtime wedges threads under this signal load about once in 10-40 runs).
     if not q:
